@@ -1,6 +1,7 @@
 pub mod c01;
 pub mod c02;
 pub mod c03;
+pub mod c04;
 pub mod c05;
 pub mod c06;
 pub mod c07;
@@ -12,6 +13,8 @@ pub mod c12;
 pub mod c13;
 pub mod c14;
 pub mod c15;
+pub mod c16;
+pub mod c17;
 
 use crate::engine::PropertyDef;
 
@@ -20,6 +23,7 @@ pub fn def(id: &str) -> Option<PropertyDef> {
         "C01" => c01::def(),
         "C02" => c02::def(),
         "C03" => c03::def(),
+        "C04" => c04::def(),
         "C05" => c05::def(),
         "C06" => c06::def(),
         "C07" => c07::def(),
@@ -31,8 +35,10 @@ pub fn def(id: &str) -> Option<PropertyDef> {
         "C13" => c13::def(),
         "C14" => c14::def(),
         "C15" => c15::def(),
+        "C16" => c16::def(),
+        "C17" => c17::def(),
         _ => return None,
     })
 }
 
-pub const ALL: &[&str] = &["C01", "C02", "C03", "C05", "C06", "C07", "C08", "C09", "C10", "C11", "C12", "C13", "C14", "C15"];
+pub const ALL: &[&str] = &["C01", "C02", "C03", "C04", "C05", "C06", "C07", "C08", "C09", "C10", "C11", "C12", "C13", "C14", "C15", "C16", "C17"];
